@@ -42,6 +42,19 @@ ReadsOK(r, S, XP) ==
           /\ x.found = x.id                                   \* find_id(parent, title) finds the row (names are unique per parent)
     /\ {x.id : x \in ToSet(o.lists)} = L
     /\ \A id \in ToSet(o.gone) : id \notin L                 \* ids handed out before and removed: exists() = false, get() empty
+    \* the high-level API is a view of the same rows: crates(), root_crates() and every structural query of every crate
+    \* handle, on stores only the table API can build (entities naming tracks that have no row)
+    /\ ToSet(o.hl.crates) = L /\ Len(o.hl.crates) = Cardinality(L)
+    /\ o.hl.roots = KidsOf(S, 0)
+    /\ {x.id : x \in ToSet(o.hl.cr)} = L /\ Len(o.hl.cr) = Cardinality(L)
+    /\ \A x \in ToSet(o.hl.cr) :
+          /\ x.v = TRUE /\ x.byid = x.id
+          /\ x.nm = S.P[x.id].t
+          /\ x.par = S.P[x.id].p
+          /\ x.ch = KidsOf(S, x.id)
+          /\ ToSet(x.de) = DescOf(S.P, x.id) /\ Len(x.de) = Cardinality(DescOf(S.P, x.id))
+          /\ x.tr = MemOf(S, x.id)
+    /\ o.hl.tracks = <<>>                                     \* (this driver creates no Track row)
 
 \* C16 at table level: the read functions issued no write statement, changed no row, left the digest of all tables
 \* as it was, and a repeated observation agreed
